@@ -98,6 +98,15 @@ def applyAct (P : Params) (ws : List World) (a : Act) : List World :=
 
 def processLine (a : AccSt) (toks : List String) : Except String AccSt :=
   match toks with
+  | ["act", "burst", n, c] =>
+    match n.toNat?, ctxOf c with
+    | some n, some c =>
+      let ws1 := (List.range n).foldl (fun ws _ => applyAct a.P ws (.callDo c)) a.ws
+      if ws1.isEmpty then .error "burst not enabled" else
+      (match closure a.P ws1 with
+       | none => .error "model exploration budget exceeded"
+       | some q => .ok { a with ws := q.eraseDups, steps := a.steps + 1, maxSet := max a.maxSet q.length })
+    | _, _ => .error "bad burst"
   | "act" :: rest =>
     let act : Option Act := match rest with
       | ["do", c] => (ctxOf c).map Act.callDo
